@@ -3,6 +3,11 @@ G = lambda n: "(*" + P + "grainPID)." + n
 SUB = {G("handleGrainContext"): P + "vC31_onReceive", G("deactivate"): P + "vC31_deactivateFn", G("teardownInFlightRequests"): P + "vC31_teardown",
        G("recovery"): P + "vC31_recovery", "(*" + P + "GrainContext).NoErr": P + "vC31_noErr", "(*" + P + "GrainContext).Err": P + "vC31_errFn",
        "(*" + P + "dispatcher).schedule": P + "vC31_schedule", "(*" + P + "worker).reschedule": P + "vC31_reschedule"}
+# activation entries: the real handleGrainContext / activate run; environment only
+SUB_ACT = {"(*" + P + "dispatcher).schedule": P + "vC31_scheduleQ", "(*" + P + "worker).reschedule": P + "vC31_rescheduleQ", G("recovery"): P + "vC31_recovery",
+           "(*" + P + "actorSystem).localSend": P + "vC31_localSend", "(*" + P + "GrainIdentity).Validate": P + "vC31_validateID",
+           "(*" + P + "reflection).instantiateGrain": P + "vC31_instantiate", "(*github.com/flowchartsman/retry.Retrier).RunContext": P + "vC31_runContext"}
+STOP = [k for k in SUB if k != G("handleGrainContext")] + ["(*" + P + "actorSystem).localSend", "(*" + P + "reflection).instantiateGrain"]
 CHECK = {
     "id": "C31",
     "packages": ["./actor"],
@@ -11,9 +16,11 @@ CHECK = {
     "entries": [
         {"fn": P + "vC31_turns", "replay": "model-only", "cover_optional": ("pending",)},
         {"fn": P + "vC31_deactivate", "replay": "model-only"},
+        {"fn": P + "vC31_activation", "replay": "model-only", "cases": {"first": [0, 1], "retained": [0, 1]},
+         "opts": {"substitute": SUB_ACT, "unwind": 6}, "cover_optional": ("all-received",)},
     ],
     "opts": {"rounds": 3, "unwind": 4, "unwind_mode": "assume", "feasibility": False, "substitute": SUB},
-    "stop": list(SUB.keys()),
+    "stop": STOP,
     "timeout_ms": {"quick": 400000, "thorough": 1800000},
     "explanation": "grainPID.receive, runTurn, finishOrReclaim, hasPendingWork, paused, dequeueResponse, the real dispatchOne (PoisonPill arm: handlePoisonPill with its isActive guard) and the real grainMailbox under solver-chosen interleavings; OnReceive (handleGrainContext) and OnDeactivate (deactivate) are ghost recorders, the ready queue is a token channel.",
     "bounds": {"threads": "2 senders (<= 3 messages + pills), 2 workers", "rounds": 3, "throughput": 3},
